@@ -10,6 +10,7 @@ Nothing here reads an attribute of the object under test by name.
 from __future__ import annotations
 
 import copy
+import dataclasses
 import math
 
 import numpy as np
@@ -177,7 +178,7 @@ def reachable_transforms(root, limit=200):
         if _is_kd_transform(o):
             out.append(o)
             children = list(vars(o).values())
-        elif isinstance(o, _Dataset):
+        elif isinstance(o, _Dataset) or (dataclasses.is_dataclass(o) and not isinstance(o, type)):
             children = list(vars(o).values())
         elif isinstance(o, (list, tuple)):
             children = list(o)
@@ -186,7 +187,7 @@ def reachable_transforms(root, limit=200):
         else:
             continue
         for c in children:
-            if _is_kd_transform(c) or isinstance(c, (list, tuple, dict, _Dataset)):
+            if _is_kd_transform(c) or isinstance(c, (list, tuple, dict, _Dataset)) or (dataclasses.is_dataclass(c) and not isinstance(c, type)):
                 stack.append(c)
     return out
 
@@ -440,10 +441,21 @@ def not_collapsed(sig, tol, skip=()):
     return out
 
 
-def not_between(sa, sb, sc, tol):
-    """entries of sb that do not lie between their values in sa and sc (only entries present in all three)"""
+def not_between(sa, sb, sc, tol, single_gate=False):
+    """entries of sb that do not lie between their values in sa and sc (only entries present in all three).
+
+    Draw-position keyed entries are only compared when the three calls had the same draw structure (otherwise position i
+    may be a different draw). Gate thresholds are only compared for a subject that consists of ONE transform with at most
+    one gate (`single_gate`): in a composition the list of *observable* gates can differ between factors (a gate whose
+    effect is hidden at one factor, e.g. by the far-out answers of an additive-noise member, or whose threshold is p*0),
+    so the i-th observable gate is not the same gate at every factor; the members' gates are judged on the member
+    subjects. A gate that is not observable at some factor is unknown there (never applied and applied-as-identity look
+    the same), so the triple is not judged."""
     out = []
+    same_structure = sa.shape == sb.shape == sc.shape
     for k in sorted(set(sa.vals) & set(sb.vals) & set(sc.vals)):
+        if not same_structure and ".ctx." not in k and not k.startswith("decoded."):
+            continue
         a, b, c = sa.vals[k], sb.vals[k], sc.vals[k]
         if math.isnan(a) or math.isnan(b) or math.isnan(c):
             continue
@@ -453,7 +465,7 @@ def not_between(sa, sb, sc, tol):
         slack = tol * (1.0 + max(abs(a), abs(b), abs(c)))
         if not (lo - slack <= b <= hi + slack):
             out.append(f"{k}: {b!r} not between {a!r} and {c!r}")
-    if all(s.gates is not None and len(s.gates) == 1 for s in (sa, sb, sc)):
+    if single_gate and all(s.gates is not None and len(s.gates) == 1 for s in (sa, sb, sc)):
         a, b, c = sa.gates[0], sb.gates[0], sc.gates[0]
         if not (min(a, c) - 1e-10 <= b <= max(a, c) + 1e-10):
             out.append(f"gate threshold: {b!r} not between {a!r} and {c!r}")
